@@ -92,6 +92,6 @@ def enum_grid(tier, shard, nshards, rng):
 
 def parts(tier):
     return [
-        Part("roundtrip", check=check, strategy=strat, quick=(16, 150), thorough=(16, 2500)),
+        Part("roundtrip", check=check, strategy=strat, quick=(16, 400), thorough=(16, 2500)),
         Part("grid", check=check, enum=enum_grid, quick=(8, 0), thorough=(16, 0), exhaustive=True),
     ]
